@@ -1,4 +1,5 @@
 import Plotink.Proofs.C10Term
+import Plotink.Proofs.C10Gen
 
 /-! # C10 — Bezier subdivision refines the same curve until every piece is flat
 
@@ -123,5 +124,58 @@ example : subdivideCubicPath 2 [⟨(0,0),(0,0),(1,0)⟩, ⟨(2,0),(3,0),(3,0)⟩
 
 example (sp : List Node) : ∃ fuel r, subdivideCubicPath fuel sp 1 = some r :=
   (C10_terminates sp 1 (by norm_num)).1
+
+/-! ## The same statements about the SOURCE-REGENERATED code
+
+`Gen.subdivideCubicPath` is regenerated from `plotink/plot_utils.py` on every run, its dependency
+`Gen.beziersplitatt` (with `Gen.tpoint`) from the installed `ink_extensions/bezmisc.py` (hash in `Gen/report.json`),
+`Gen.points_in_tolerance` from `plot_utils.py`.  Exact arithmetic (`Rounding.exact`); a node list is
+`C10.encNodes sp` (lists `[hin, p, hout]` of `[x, y]` floats); the in-place rewrite of `s_p` is returned as
+`(None, new s_p)`; the two `while True` loops run on `fuel`.  Proofs: `Proofs/C10Gen.lean`. -/
+
+/-- `beziersplitatt`, regenerated from the installed dependency: de Casteljau, the model's `splitAt` -/
+theorem C10_gen_split (amb : Nat) (c : Cubic) (t : Rat) :
+    Gen.beziersplitatt Rounding.exact amb (encCubic c) (.flt t) =
+      .tup [encCubic (splitAt c t).1, encCubic (splitAt c t).2] :=
+  split_bridge amb c t
+
+/-- **bridge** `Gen.subdivideCubicPath = C10.subdivideCubicPath`: whatever the model returns with fuel `n`, the
+regenerated code returns for every fuel above `n` -/
+theorem C10_gen_bridge (amb n fuel : Nat) (sp r : List Node) (flat : Rat) (hf : n < fuel)
+    (h : subdivideCubicPath n sp flat = some r) :
+    Gen.subdivideCubicPath Rounding.exact amb fuel (encNodes sp) (.flt flat) (.int 1) = .val (.tup [.none_, encNodes r]) :=
+  subdivide_bridge amb n fuel sp r flat hf h
+
+/-- `C10_terminates` for the regenerated code: for positive flatness there is a fuel from which on the regenerated
+function returns — the same node list `r` for every such fuel (no `fuelOut`, no exception) -/
+theorem C10_gen_terminates (amb : Nat) (sp : List Node) (flat : Rat) (hflat : 0 < flat) :
+    ∃ (fuel0 : Nat) (r : List Node), ∀ fuel, fuel0 ≤ fuel →
+      Gen.subdivideCubicPath Rounding.exact amb fuel (encNodes sp) (.flt flat) (.int 1) = .val (.tup [.none_, encNodes r]) := by
+  obtain ⟨n, r, h⟩ := (C10_terminates sp flat hflat).1
+  exact ⟨n + 1, r, fun fuel hf => subdivide_bridge amb n fuel sp r flat (by omega) h⟩
+
+/-- `C10_flat` for the regenerated code: the node list it returns (for every sufficient fuel) has only flat pieces -/
+theorem C10_gen_flat (amb : Nat) (sp : List Node) (flat : Rat) (hflat : 0 < flat) :
+    ∃ (fuel0 : Nat) (r : List Node), (∀ fuel, fuel0 ≤ fuel →
+      Gen.subdivideCubicPath Rounding.exact amb fuel (encNodes sp) (.flt flat) (.int 1) = .val (.tup [.none_, encNodes r])) ∧
+      ∀ c ∈ pieces r, FlatPiece c flat := by
+  obtain ⟨n, r, h⟩ := (C10_terminates sp flat hflat).1
+  exact ⟨n + 1, r, fun fuel hf => subdivide_bridge amb n fuel sp r flat (by omega) h, C10_flat n sp r flat h⟩
+
+/-- `C10_refines` for the regenerated code: the returned node list traces the same curve — every original piece
+replaced by its restrictions to dyadic intervals tiling `[0,1]`; outer handles and end nodes intact -/
+theorem C10_gen_refines (amb : Nat) (sp : List Node) (flat : Rat) (hflat : 0 < flat) :
+    ∃ (fuel0 : Nat) (r : List Node), (∀ fuel, fuel0 ≤ fuel →
+      Gen.subdivideCubicPath Rounding.exact amb fuel (encNodes sp) (.flt flat) (.int 1) = .val (.tup [.none_, encNodes r])) ∧
+      RefinesPath (pieces sp) (pieces r) ∧
+      r.head?.map (fun n => (n.hin, n.p)) = sp.head?.map (fun n => (n.hin, n.p)) ∧
+      r.getLast?.map (fun n => (n.p, n.hout)) = sp.getLast?.map (fun n => (n.p, n.hout)) := by
+  obtain ⟨n, r, h⟩ := (C10_terminates sp flat hflat).1
+  exact ⟨n + 1, r, fun fuel hf => subdivide_bridge amb n fuel sp r flat (by omega) h, C10_refines n sp r flat h⟩
+
+/-- non-vacuity / instance: an already flat two-node path comes back unchanged from the regenerated code -/
+example : Gen.subdivideCubicPath Rounding.exact 53 3 (encNodes [⟨(0,0),(0,0),(1,0)⟩, ⟨(2,0),(3,0),(3,0)⟩]) (.flt 1) (.int 1)
+    = .val (.tup [.none_, encNodes [⟨(0,0),(0,0),(1,0)⟩, ⟨(2,0),(3,0),(3,0)⟩]]) :=
+  C10_gen_bridge 53 2 3 _ _ 1 (by decide) (by decide +kernel)
 
 end Plotink
